@@ -96,8 +96,8 @@ Theorem C08_limits_holds_on_runs :
 Proof. exact C08_limits_holds_runs. Qed.
 Print Assumptions C08_limits_holds_on_runs.
 
-(* ... and nothing of a rejected call (too large, topic conflict, metadata failure, closed)
-   is ever sent, in any later state. *)
+(* ... and nothing of a rejected call (too large, topic conflict, metadata failure, closed —
+   at enter() or, when Close ran in between, at batchMessages) is ever sent, in any later state. *)
 Theorem C08_rejected_never_sent :
   forall cfg ls s, run (step cfg) init ls = Some s ->
   forall c cl, nth_error (s_calls s) c = Some cl -> rejected cl = true ->
